@@ -191,6 +191,11 @@ func (bcR *BlockchainReactor) Receive(chID byte, src *p2p.Peer, msgBytes []byte)
 		}
 	case *bcBlockResponseMessage:
 		// Got a block.
+		if msg.Block == nil || msg.Block.Header == nil || msg.Block.Data == nil || msg.Block.LastCommit == nil {
+			// The sync loop and the verifier dereference all three.
+			log.Warn("Incomplete block from peer", zap.String("peer", src.Key))
+			return
+		}
 		bcR.pool.AddBlock(src.Key, msg.Block, len(msgBytes))
 	case *bcStatusRequestMessage:
 		// Send peer our state.
